@@ -256,8 +256,12 @@ class VerifyingKey(object):
            (if set to False) or if it should be delayed to the time of first
            use (when set to True)
         """
-        self.pubkey.point = ellipticcurve.PointJacobi.from_affine(
-            self.pubkey.point, True
+        # the point may carry no order (e.g. a key made by from_public_point()
+        # from a bare Point); the multiplication table needs one, and for
+        # a public key it is the order of the curve's base point
+        point = self.pubkey.point
+        self.pubkey.point = ellipticcurve.PointJacobi(
+            point.curve(), point.x(), point.y(), 1, self.curve.order, True
         )
         # as precomputation in now delayed to the time of first use of the
         # point and we were asked specifically to precompute now, make
